@@ -13,7 +13,7 @@ cnt = collections.Counter(re.search(r"property=(C\d+)", f).group(1) for f in kf[
 nfix = subprocess.check_output(["git", "-C", "/repo", "log", "--format=%s"]).decode().splitlines()
 nfix = sum(1 for l in nfix if l.startswith("fix:"))
 metas = [json.load(open(m)) for m in glob.glob(os.path.join(V, "seeded", "*", "meta.json"))]
-subst = {"@@NFIX@@": str(nfix), "@@FIXCOUNTS@@": ", ".join("%s %d" % kv for kv in sorted(cnt.items())),
+subst = {"@@NKNOWN@@": str(len(kf["findings"])), "@@NFIX@@": str(nfix), "@@FIXCOUNTS@@": ", ".join("%s %d" % kv for kv in sorted(cnt.items())),
          "@@NSEED@@": str(len(metas)), "@@NSTR@@": str(sum(1 for m in metas if m["evaluation"]["caught"] == "after-strengthening"))}
 out = [functools.reduce(lambda t, kv: t.replace(*kv), subst.items(), x) for x in out]
 text = re.sub(r'(-{80,}\n)\n+(-{80,}\n)', r'\1', "\n".join(out))
